@@ -19,7 +19,7 @@ MANIFEST = {
 		'(equal keys rejected); two encodable arrays with the same keyed entries are equal (canonical encoding); written arrays read back. '
 		'They hold for any element codec, comparer and transform. Tie: every keyed array of both shipped schemas (found from the regenerated '
 		'schema) is exercised on all permutations of small entry sets incl. equal keys, high-byte-only differences and maximal values: '
-		'sort(), serialize accept/reject, deserialize of hand-permuted bytes, model vs generated Python code.',
+		'sort(), serialize accept/reject, deserialize of hand-permuted bytes, model vs generated Python code. Stability for lists of any length and uniqueness of the strictly ascending arrangement (Cats/SortProofs2.v).',
 	'design_ref': 'DESIGN.md section 4, C12',
 	'technique': 'Coq proof (sort + order-check model with regenerated operators) + vm_compute differential on permutations of keyed arrays',
 }
